@@ -722,6 +722,8 @@ func redactScalarValue(keyPath []string, v interface{}, isSearchStage bool, isSe
 		}
 	}
 	switch v.(type) {
+	case nil:
+		return nil
 	case string:
 		str := v.(string)
 		if IsEmail(str) {
